@@ -6,11 +6,16 @@ CONSTANTS
   Shapes = {"arr", "sc"}
   BinForms = {"operator", "ufunc", "inplace", "out"}
   BinOpSet = {"add", "subtract", "maximum", "minimum", "less", "greater", "less_equal", "greater_equal", "equal", "not_equal"}
-  ConvVias = {"in_units", "to", "convert_to_units", "to_value", "in_base"}
+  ConvVias = {"in_units", "to", "convert_to_units", "to_value", "in_base", "convert_to_base"}
   ChainP = {"", "m", "k"}
   ChainTgt = {"K", "R", "degC", "degF", "mdegC"}
-  ChainDT = {"f8", "f4"}
+  ChainDT = {"f8", "f4", "i4", "i8"}
   ChainLen3 = TRUE
+  ChainBases = {"K", "R", "degC", "degF", "delta_degC", "delta_degF"}
+  ConvDT = {"f8", "f4", "i2", "u2", "i4", "u4", "i8"}
+  MixP = {"", "Y", "Z", "E", "P", "T", "G", "M", "k", "h", "da", "d", "c", "m", "u", "n", "p", "f", "a", "z", "y", "micro_sign", "micro_mu"}
+  MixOps = {"add", "subtract", "maximum", "minimum", "less", "greater", "less_equal", "greater_equal", "equal", "not_equal"}
+  Fams = {"conv", "bin", "red", "ref", "chain", "mix"}
 INIT Init
 NEXT Next
 INVARIANT Export
